@@ -151,7 +151,7 @@ def cur_residuals(spec, X, y, S):
     return Xr, yr
 
 
-def pi_oracle(spec, X, y, S):
+def pi_oracle(spec, X, y, S, min_gap=1e-6):
     """Leverage scores over the top-k subspace of the residual; returns (pi, gap_ok).
 
     gap_ok is False when the k-dimensional subspace is not well defined (spectral gap
@@ -168,7 +168,7 @@ def pi_oracle(spec, X, y, S):
             return None, False
         gap = (sv[k - 1] - (sv[k] if k < len(sv) else 0.0)) / max(sv[0], 1e-300)
         pi = (V[:, :k] ** 2).sum(axis=1)
-        return pi, bool(gap >= 1e-6 and sv[0] > 0)
+        return pi, bool(gap >= min_gap and sv[0] > 0)
     a = float(spec["kw"].get("mixing", 0.5))
     if axis == 0:
         M = a * (Xr @ Xr.T) + (1 - a) * (yr @ yr.T)
@@ -231,6 +231,8 @@ def first_repeat(seq):
 def fit(est, X, y, spec, warm=False):
     from . import forms
 
+    if spec.get("xfloat32"):  # single-precision input (the numbers are exactly representable: drawn that way)
+        X = np.asarray(X).astype(np.float32)
     if spec.get("xint") and np.all(np.asarray(X) == np.round(X)):  # whole-number data handed over with an integer dtype
         X = np.asarray(X).astype(spec["xint"])
     X = forms.present(X, spec.get("xform", "C"))
